@@ -25,6 +25,11 @@ def load():
 
 def match(kf, pid, obligation):
     for k in kf:
-        if k["property"] == pid and k["obligation"] == obligation:
+        if k["property"] != pid:
+            continue
+        if k["obligation"] == obligation:
+            return k
+        # `prefix.*` names every row of ONE call site / table row group (e.g. all child classes at the `||` site)
+        if k["obligation"].endswith(".*") and obligation.startswith(k["obligation"][:-1]):
             return k
     return None
